@@ -1,5 +1,6 @@
 """C10 - wire-fencing weights: exact, symmetric, drive segment choice."""
 
+import math
 from fractions import Fraction
 
 from hypothesis import strategies as st
@@ -83,8 +84,27 @@ def weight_cases():
             "outer": st.sampled_from([-0.25, 0.0, 0.1, 0.25]),
             "u": st.floats(0, 1, exclude_max=True),
             "m": st.integers(0, 400),
+            # frames a hair's breadth from an interface: (frame index, which interface, offset kind)
+            "near": st.lists(st.tuples(st.integers(0, 39), st.sampled_from(["left", "right"]), st.sampled_from(["ulp-", "ulp+", "-1e-9", "+1e-9", "-3e-8", "+3e-8"])), max_size=3),
         }
     )
+
+
+def nudge(o, left, right, near):
+    """Replace frames by values just below / above an interface (double precision matters: 1 ulp, 1e-9, 3e-8)."""
+    o = list(o)
+    for idx, which, kind in near or []:
+        if not o:
+            break
+        x = left if which == "left" else right
+        i = idx % len(o)
+        if kind == "ulp-":
+            o[i] = math.nextafter(x, -math.inf)
+        elif kind == "ulp+":
+            o[i] = math.nextafter(x, math.inf)
+        else:
+            o[i] = x + float(kind)
+    return o
 
 
 def nontrivial_weight(o, left, right):
@@ -98,10 +118,11 @@ def body_weight(rec, c):
     from infretis.core.tis import compute_weight, wirefence_weight_and_pick
 
     o, (left, right) = c["olr"]
+    o = nudge(o, left, right, c.get("near"))
     path = mk_path(o)
     segs = ref.qualifying(o, left, right)
     want = sum(s[2] for s in segs)
-    classes = ["weight"]
+    classes = ["weight"] + (["w:frame-within-3e-8-of-an-interface"] if c.get("near") else [])
     if len(segs) >= 2:
         classes.append("w:multi-seg")
     if ref.jumps_over(o, left, right):
